@@ -63,12 +63,13 @@ class Stall(object):
         if not self.active:
             if env.wire or env.frames_seen < self.frame:
                 return None
-            if env.frames_seen == self.frame and not env.dev.ready_queues(env.clock.now) and self.kind in ('trickle', 'unexpected'):
+            if env.frames_seen == self.frame and not env.dev.ready_queues(env.clock.now) and self.kind in ('trickle', 'unexpected', 'wrte'):
                 return None                   # the awaited frame does not exist yet (host has to write first)
             self.active = True
             self.t0 = env.clock.now
             self.calls0 = env.calls
-            if self.kind in ('trickle', 'unexpected'):
+            self.ev0 = len(env.events)
+            if self.kind in ('trickle', 'unexpected', 'wrte'):
                 fr = env._frame()
                 if fr is not None:
                     self.ids = (int.from_bytes(fr[4:8], 'little'), int.from_bytes(fr[8:12], 'little'))
@@ -86,6 +87,18 @@ class Stall(object):
             env.clock.advance(0.9 * timeout if timeout else 0.0)
             out = bytes(self.buf[:1])
             del self.buf[:1]
+            return out
+        if k == 'wrte':
+            # reactive: the first WRTE at once, every further one only after the host acknowledged the previous one (stop-and-wait)
+            if not self.buf:
+                acks = sum(1 for w, p in env.events[self.ev0:] if w == 'H' and p.cmd == b'OKAY' and p.a0 == self.ids[1])
+                if self.sent > acks:
+                    return self.timeout(env, timeout)
+                data = b'more%d' % self.sent
+                self.buf += frames.encode(b'WRTE', self.ids[0], self.ids[1], data) + data
+                self.sent += 1
+            out = bytes(self.buf[:n])
+            del self.buf[:n]
             return out
         if k in ('other', 'unexpected'):
             if not self.buf:
@@ -163,6 +176,10 @@ class Env(object):
                 fr[0:4] = int(m['word']).to_bytes(4, 'little')
                 if m.get('magic'):
                     fr[20:24] = (int(m['word']) ^ 0xFFFFFFFF).to_bytes(4, 'little')
+                if m.get('lonely'):
+                    # a header of an unknown kind that announces a payload which never follows (newer protocol packet, garbage)
+                    fr[12:16] = (max(1, len(fr) - 24) if len(fr) > 24 else 5).to_bytes(4, 'little')
+                    del fr[24:]
                 self.mutated = True
             fr = bytes(fr)
         return fr
